@@ -493,6 +493,15 @@ fn run_inner(line: &str) -> String {
             let cp: u32 = arg(2).parse().unwrap();
             cmp_ops(&e, cp)
         }
+        "forbidden" => "-".to_string(),
+        "nfc" => {
+            use unicode_normalization::UnicodeNormalization;
+            fmt_str(&parse_str(arg(1)).nfc().collect::<String>())
+        }
+        "nfkc" => {
+            use unicode_normalization::UnicodeNormalization;
+            fmt_str(&parse_str(arg(1)).nfkc().collect::<String>())
+        }
         "csvrow" => crate::tools::csv_row(arg(1), &f[2..].join("|")),
         _ => proto("unknown op"),
     }
